@@ -186,6 +186,15 @@ def run(ck):
             ms = mutate_source(rng, src)
             if ms and ms != src:
                 reqs.append({"src": ms, "path": f, "n": nrun, "state": False, "sched": True}); meta.append((f, "mut%d" % k))
+    # witnesses of the listed findings (and of repaired defects, which must stay repaired) run with every tier
+    wits = json.load(open(os.path.join(VERIF, "corpus", "C01", "witnesses.json")))
+    for w in wits:
+        reqs.append({"src": w["src"], "n": nrun, "state": False, "sched": True}); meta.append(("witness", "wit:" + w["id"] + (":repaired" if "repaired" in w else "")))
+    reproduced = set()
+    _known = ck.known
+    def known_and_note(f_, detail):
+        reproduced.add(f_["id"]); _known(f_, detail)
+    ck.known = known_and_note
     res = run_impl(iexe, reqs, timeout_per_batch=400)
     for (f, kind), rq, r in zip(meta, reqs, res):
         if 'crash' in r and r['crash'] == "stack-overflow" and kind != "orig":
@@ -204,6 +213,8 @@ def run(ck):
         if a and b and a[0] == 'panic' and b[0] == 'panic':
             bump("shipped_both_panic_" + kind[:3]); continue     # a C04 matter, not a backend difference
         hit = [c for c in src_classes(rq['src']) if c in findings]
+        if not hit and kind.startswith("wit:") and kind.split(":")[1] in findings and "repaired" not in kind and kind.split(":")[1] == "F13w" and sched_tick_closure(rq['src']):
+            hit = ["F13w"]
         if not hit and "F48" in findings and "%" in rq['src'] and a[0] == 'ok' and b[0] == 'ok' and len(a[2]) == len(b[2]) and \
            all(x == y or all(p in ("0000000000000000", "8000000000000000") and q in ("0000000000000000", "8000000000000000") for p, q in zip(x, y) if p != q)
                for x, y in zip(a[2], b[2])):
@@ -213,6 +224,11 @@ def run(ck):
         else:
             viol.append(("VM and WASM differ on a shipped/mutated source", rq['src'], {"file": f, "mutation": kind, "vm": str(a)[:300], "wasm": str(b)[:300], "n": nrun, "sched": True}))
 
+    stale = sorted(w["id"] for w in wits if "repaired" not in w and w["id"] in findings and w["id"] not in reproduced)
+    for fid in stale:
+        print(f"NOTE: property=C01 the witness of listed finding {fid} no longer shows the defect (repaired? then turn the line into `fixed:`)", flush=True)
+    ck.coverage["findings_reproduced"] = sorted(reproduced)
+    ck.coverage["findings_whose_witness_no_longer_fails"] = stale
     ck.coverage["evaluations"] = len(cases) + len(reqs)
     ck.coverage["distinct_nontrivial"] = len(distinct)
     ck.coverage["generated_programs"] = len(cases)
